@@ -467,6 +467,15 @@ Section VertexProofs.
       destruct Hin as (t' & E & _). now inversion E.
     - cbn [bind]. match goal with |- context [bind ?e _] => destruct e end; cbn [bind]; discriminate.
   Qed.
+  (* with the range contract of closest_t (C16_closest_t_range_partial): every reported t is NaN or in [-pi, pi] *)
+  Theorem vertex_t_range_lemma : forall (in_range : F -> Prop),
+    (forall t q, in_range (tclosest t q)) ->
+    forall tracks v rem, find_vertices tracks = Ok (Some v, rem) ->
+    forall t x, In (t, x) (v_tracks F T v) -> in_range x.
+  Proof.
+    intros in_range Hr tracks v rem Hv t x Hin. rewrite (vertex_t_values_lemma tracks v rem Hv t x Hin). apply Hr.
+  Qed.
+
   (* ---- named hypotheses ---- *)
   Variable tracks : list T.
   (* sort_unstable_by returns a permutation of its input (std; not modelled) *)
